@@ -17,6 +17,7 @@ from sklearn.cluster import KMeans
 from sklearn.decomposition import PCA
 from sklearn.linear_model import LinearRegression, LogisticRegression
 from sklearn.neighbors import KNeighborsRegressor
+from sklearn.pipeline import Pipeline
 from sklearn.preprocessing import StandardScaler
 from sklearn.tree import DecisionTreeClassifier, DecisionTreeRegressor
 
@@ -50,6 +51,11 @@ MODELS = {
     "logreg-C": (lambda: PLogReg(max_iter=60, C=0.2), ("predict", "predict_proba", "decision_function")),
     "treeclf": (lambda: PTreeClf(max_depth=2, random_state=0), ("predict", "predict_proba")),
     "linreg": (lambda: PLinReg(), ("predict",)),
+    # trained on a one-column target (df[["y"]]): the fitted state of the
+    # wrapped model has the shapes a direct fit gives
+    "linreg-col": (lambda: PLinReg(), ("predict",)),
+    # a composite model that receives its fit keywords through **params
+    "pipe-linreg": (lambda: Pipeline([("sc", PScaler()), ("reg", PLinReg())]), ("predict",)),
     "treereg": (lambda: PTreeReg(max_depth=2, random_state=0), ("predict",)),
     "kmeans": (lambda: PKMeans(n_clusters=2, n_init=2, random_state=0), ("predict", "transform")),
     "inplace-linreg": (lambda: InPlaceLinReg(), ("predict",)),
@@ -106,6 +112,14 @@ class WarmStartLinReg(PLinReg):
 # only meaningful inside a TransferTransformer (a wrapper refitting it twice
 # would legitimately differ from a reference fitted once)
 TRANSFER_ONLY = ("warmstart-linreg", "knn-callable")
+LEARNER_ONLY = ("linreg-col", "pipe-linreg")
+
+
+def _fit_kw(name, data):
+    if data["w"] is None or name == "pca":
+        return {}
+    return {"reg__sample_weight": data["w"]} if name == "pipe-linreg" else {"sample_weight": data["w"]}
+
 
 
 def _first_column_twice(X):
@@ -169,14 +183,16 @@ class _Sim:
 
 
 def _target(name, data):
-    return data["yr"] if name in ("linreg", "treereg", "inplace-linreg", "warmstart-linreg", "knn-callable") else data["y"]
+    if name == "linreg-col":
+        return data["yr"].reshape(-1, 1)
+    return data["yr"] if name in ("linreg", "treereg", "inplace-linreg", "warmstart-linreg", "knn-callable", "pipe-linreg") else data["y"]
 
 
 def _reference(sim, name, data, method):
     """Independently built and fitted model; its output on the probe."""
     ref = MODELS[name][0]()
     sim.env()
-    kw = {"sample_weight": data["w"]} if data["w"] is not None and name not in ("pca",) else {}
+    kw = _fit_kw(name, data)
     if name in ("scaler", "pca", "kmeans"):
         ref.fit(data["X"], y=_target(name, data), **kw)
     else:
@@ -187,6 +203,19 @@ def _reference(sim, name, data, method):
 
 
 def _check_record(sim, who, model, data, name, kw):
+    if name == "pipe-linreg" and hasattr(model, "named_steps"):
+        # what a direct fit of the same pipeline hands to its last step
+        inner = model.named_steps["reg"]
+        ref = MODELS[name][0]()
+        sim.env()
+        ref.fit(data["X"], _target(name, data), **kw)
+        rin = ref.named_steps["reg"]
+        same = hasattr(inner, "rec_X_") and numpy.array_equal(inner.rec_X_, rin.rec_X_) and numpy.array_equal(inner.rec_y_, rin.rec_y_)
+        same = same and ((inner.rec_w_ is None and rin.rec_w_ is None) or (inner.rec_w_ is not None and rin.rec_w_ is not None and numpy.array_equal(inner.rec_w_, rin.rec_w_)))
+        if not same:
+            sim.viol("training-data", (who, "fit-keywords-through-params"), "%s: the last step of the wrapped pipeline was not trained as a direct fit with the same keywords trains it (weights received: %r)" % (who, None if not hasattr(inner, "rec_w_") or inner.rec_w_ is None else "yes"))
+        sim.c.probe("pipeline_fit_keywords_checked")
+        return
     if not hasattr(model, "rec_X_"):
         sim.viol("wrapped-not-fitted", (who,), "%s: the wrapped model was not fitted by fit" % who)
         return
@@ -204,6 +233,11 @@ def _run_learner(c, sim):
     name = ch.choice("w", [m for m in sorted(MODELS) if m not in TRANSFER_ONLY], "model")
     methods = MODELS[name][1]
     mchoice = ch.choice("w", [None, "callable"] + list(methods), "method")
+    if mchoice is None and name == "pipe-linreg":
+        # the default is guessed from the attributes of the class; Pipeline
+        # declares transform whatever its last step is (not a method the
+        # property lists: the guess is outside its statement)
+        mchoice = "predict"
     method = _first_column_twice if mchoice == "callable" else mchoice
     dataA = _data(ch, "A")
     dataB = _data(ch, "B")
@@ -244,8 +278,8 @@ def _run_learner(c, sim):
             continue
         if op in ("fit", "fit-fail"):
             data = dataA if ch.boolean("w", 0.5, "which") else dataB
-            kw = {"sample_weight": data["w"]} if data["w"] is not None and cur_name != "pca" else {}
-            fire = [(-1, type(wr.model).__name__, "fit", 0)] if op == "fit-fail" else ()
+            kw = _fit_kw(cur_name, data)
+            fire = [(-1, type(wr.model).__name__ if cur_name != "pipe-linreg" else "PeerLinearRegression", "fit", 0)] if op == "fit-fail" else ()
             sim.env(fire)
             ok, r = U.sut(c, op, wr.fit, data["X"], _target(cur_name, data), **kw)
             if op == "fit-fail":
@@ -328,7 +362,7 @@ def _run_learner(c, sim):
 def _run_stacking(c, sim):
     ch = c.ch
     method = ch.choice("w", ["predict", "predict_proba", "decision_function"], "method")
-    learners = [m for m in sorted(MODELS) if method in MODELS[m][1] and m not in ("kmeans",) + TRANSFER_ONLY]
+    learners = [m for m in sorted(MODELS) if method in MODELS[m][1] and m not in ("kmeans",) + TRANSFER_ONLY + LEARNER_ONLY]
     transformers = ["scaler", "pca"]
     nm = ch.integer("w", 1, 4, "n-members")
     members = []
